@@ -72,6 +72,13 @@ def _run_one(spec):
     signal.signal(signal.SIGPROF, _alarm)
     signal.setitimer(signal.ITIMER_PROF, float(spec.get("_cap", _WORKER_CAP)))
     signal.alarm(8 * int(spec.get("_cap", _WORKER_CAP)))
+    # harness hygiene: functions defined from a string are exec'd into qlasskit.qlassfun's globals
+    # (C10's territory, not claimed); a corpus function named like a builtin (sum, max, abs, ...) would
+    # shadow that builtin for every later item of this worker, so such names are removed between items
+    qfm = sys.modules.get("qlasskit.qlassfun")
+    if qfm is not None:
+        for nm in ("abs", "len", "min", "max", "sum", "any", "all", "chr", "ord", "int", "float", "print", "range"):
+            qfm.__dict__.pop(nm, None)
     try:
         with contextlib.redirect_stdout(io.StringIO()):
             r = _WORKER_FN(spec)
